@@ -174,6 +174,12 @@ func (c *Ctx) Watch(limit time.Duration, flush func()) {
 
 // Fail records a finding for property prop on case cs.
 func (c *Ctx) Fail(prop string, cs *Case, f string, a ...any) {
+	if prop != c.ID {
+		// the evaluator also judges aspects that belong to other properties; those are
+		// reported by the checks of those properties, here they are only counted
+		c.R.Counters["findings_of_other_properties."+prop]++
+		return
+	}
 	cc := *cs
 	if cc.S != nil {
 		cc.Q = strconv.Quote(string(cc.S))
